@@ -28,3 +28,17 @@ LEVEL_TEXT = {}
 TECHNIQUE = {}
 LEVEL_TEXT["C19"] = "Exhaustive enumeration of every GF(2) system in stated (variables, equations, constant bits) spaces, both solvers, against brute-force solvability; small-scope exhaustive, which is the right level because the solvers' branches (pivot choice, dependent/contradictory rows, lazy peeling of light/heavy variables) are all reached by systems of <= 6 variables."
 TECHNIQUE["C19"] = "bounded-exhaustive enumeration of all inputs up to a size bound against a brute-force reference model"
+
+PROPS["C16"] = dict(
+    level="exploration",
+    engine="E1",
+    parts=[dict(bin="e1_shard_edge")],
+    rule="case = (ShardEdge impl, n, eps, max_shard choice) set-up through set_up_shards+set_up_graphs; inside each case the cross product of extreme values of both signature words (0,1,2^32+-1,2^63,MAX-1,MAX, alternating, every 2^j, ~2^j, 2^j-1: 190 values per word) is evaluated; a case is non-trivial when the set-up succeeded and is not a duplicate of another max_shard choice",
+    alphabet="7 ShardEdge impls (FuseLge3Shards, FuseLge3NoShards x [u64;2]/[u64;1], FuseLge3FullSigs, Mwhc3Shards, Mwhc3NoShards); eps in {0.001,0.01,0.1}; max_shard in {ceil(n/s), floor(1.01 n/s)} (n when s=1)",
+    bound={"quick": "every n in 0..=2500, powers of 2 and 10 +-1 to 10^12, 50000 j +-1, values just below each shard-count switch, 12% geometric grid to 10^12; signature grid thinned 1/3 above n=2500 and 1/5 above 10^6",
+           "thorough": "every n in 0..=20000, same boundaries, 1% geometric grid to 10^12"},
+    oracle="edge(sig) pairwise distinct; < num_vertices*num_shards; inside [shard*nv,(shard+1)*nv); == local_edge(local_sig(sig)) + shard*nv; sort_key < num_sort_keys; shard(sig) == Sig::high_bits(shard_high_bits) (the signature store's function); set-up panics other than the documented too-many-vertices assertion are violations",
+    assumptions=STRICT,
+)
+LEVEL_TEXT["C16"] = "Exhaustive enumeration of graph set-ups over a dense grid of key counts (every small n, every regime boundary, geometric grid to 10^12) times a cross product of extreme signature words, checking the six arithmetic relations of the property on each; the edge computation is pure integer arithmetic whose only branches depend on n-regime and on field extremes, which the grids hit."
+TECHNIQUE["C16"] = "bounded-exhaustive enumeration of configurations x boundary-value signature grid against the arithmetic specification"
